@@ -98,7 +98,8 @@ func scalars(n int) []*scalar.Scalar {
 		}
 		useSame := subtle.ConstantTimeEq(rel, 1) | subtle.ConstantTimeEq(rel, 2)&second | subtle.ConstantTimeEq(rel, 4)&last
 		useNeg := subtle.ConstantTimeEq(rel, 3) & second
-		v := scalar.New().ConditionalSelect(fresh, same, useSame)
+		v := scalar.New()
+		v.ConditionalSelect(fresh, same, useSame)
 		v.ConditionalSelect(v, neg, useNeg)
 		ss = append(ss, v)
 	}
